@@ -28,7 +28,8 @@ THEOREMS = ['C12_factor_homomorphism', 'C12_welldim_homogeneous', 'C12_scale_ind
             'C12_held_suarez_homogeneous', 'C12_held_suarez_nondim_commutes', 'C12_held_suarez_R',
             'C12_log_pressure_shift', 'C12_p_over_p0_invariant', 'C12_p_over_p0_invariant_R',
             'C12_hyps_satisfiable', 'C12_column_hyps_satisfiable', 'C12_held_suarez_hyps_satisfiable',
-            'C12_modal_hyps_satisfiable']
+            'C12_modal_hyps_satisfiable', 'C12_concrete_operators_homogeneous', 'C12_whole_state_tendencies_covariant',
+            'C12_whole_state_step_covariant_partial', 'C12_whole_state_hyps_satisfiable']
 LEVEL = 'proof'
 LEVEL_TEXT = ('Coq theorems for every field and all non-zero scales: factor is a group homomorphism Z^4 -> F*; EVERY '
               'dimensionally well-typed expression of field operations is scale-covariant (hence re-dimensionalised '
@@ -230,6 +231,13 @@ def generate(ctx):
     for kind, integs, filt, nsteps, method in pes:
         yield 'pe', {'kind': kind, 'integrators': integs, 'filters': filt, 'nsteps': nsteps, 'inverse_method': method,
                      'scales': _scales(ctx, ns), 'seed': seed(), 'K': 3}
+    # whole-state executable model (Model/PrimEqFull.v, C12_whole_state_tendencies_covariant): same tiny SI problem under two
+    # scales; the exact model is evaluated at the scales listed in 'model_at' (cost: K=2 ~15 s per explicit_terms call)
+    wplan = [(2, [1])] if quick else [(2, [0, 1]), (3, [1]), (2, [1])]
+    for K, model_at in wplan:
+        yield 'whole_state_scales', {'K': K, 'seed': seed(), 'model_at': model_at,
+                                     'scales': [_dyadic_scale(rng), _dyadic_scale(rng)] if K == 2 else ['default', _dyadic_scale(rng)],
+                                     'grid': {'route': 'plain', 'M': 3, 'L': 4, 'I': 8, 'J': 4}}
     # nearly isothermal reference profiles x one base unit at a time pushed to 1e+-3 / 1e+-6 (absolute thresholds on
     # non-dimensional quantities are only visible when ONE unit is extreme and the quantity is close to the threshold)
     ranges = [0.8, 1e-3] if quick else [1.0, 0.8, 0.05, 1e-3, 1e-6]
@@ -1519,8 +1527,131 @@ def r_ast_scan(ctx, a):
                           'call sites relying on them (scale-dependent behaviour of the caller)': r['literal_default_calls']})
 
 
+# ---------------------------------------------------------------------------
+# whole-state model under two scales (C12_whole_state_tendencies_covariant / C12_concrete_operators_homogeneous)
+# ---------------------------------------------------------------------------
+def _dyadic_scale(rng):
+    """a non-default scale whose base units are powers of two (non-dimensionalisation of dyadic data stays dyadic: keeps the
+    exact rational model affordable), log-uniform over about 6 decades each like _rand_scale."""
+    lo = [7, 0, -10, -10]
+    return [float(2.0 ** int(l + rng.integers(0, 20))) for l in lo]
+
+
+def _dy(x, bits=7):
+    """round to `bits` significant binary digits relative to the largest entry (dyadic SI data)"""
+    x = np.asarray(x, dtype=np.float64); mx = float(np.max(np.abs(x)))
+    if mx == 0: return x
+    q = 2.0 ** (int(np.floor(np.log2(mx))) - bits)
+    return np.round(x / q) * q
+
+
+def _flat4(st):
+    return [np.asarray(st.vorticity, dtype=np.float64), np.asarray(st.divergence, dtype=np.float64),
+            np.asarray(st.temperature_variation, dtype=np.float64), np.asarray(st.log_surface_pressure, dtype=np.float64)]
+
+
+def r_whole_state_scales(ctx, a):
+    m = M(); pe = m['pe']
+    A = lambda x: float(np.max(np.abs(np.asarray(x, dtype=np.float64)))) if np.size(x) else 0.0
+    rng = np.random.Generator(np.random.PCG64(a['seed']))
+    K = a['K']
+    p = _pe_problem(rng, 'dry', K, gridkw=a['grid'])
+    for k_ in ('vort', 'div', 'temp', 'oro', 'ps'):
+        p[k_] = _dy(p[k_], 7 if k_ != 'ps' else 12)
+    p['tref'] = np.round(p['tref'])
+    labels = a['scales']
+    R = {k: [] for k in ('explicit', 'implicit', 'inverse')}
+    fields = ['vorticity', 'divergence', 'temperature_variation', 'log_surface_pressure']
+    for idx, sv in enumerate(labels):
+        specs, g, c, st, eq = _pe_setup(sv, p, 'dry')
+        dt = float(_ND(specs, p['dt'], 'second')); eta = 0.5 * dt
+        ex = eq.explicit_terms(st); im = eq.implicit_terms(st); inv_st = eq.implicit_inverse(st, eta)
+        R['explicit'].append(_pe_tend_si(specs, ex, '', _gmax(ex)))
+        R['implicit'].append(_pe_tend_si(specs, im, '', _gmax(im)))
+        R['inverse'].append(_pe_state_si(specs, g, inv_st, 'eta=0.5dt: ', _gmax(st)))
+        ctx.table_obligation('r_nz, R_nz of C12_whole_state_tendencies_covariant: non-dimensional radius and gas constant are non-zero',
+                             bool(g.radius != 0 and specs.R != 0 and np.isfinite(g.radius)), {'radius': float(g.radius), 'R': float(specs.R), 'scale': sv})
+        if idx not in a['model_at']:
+            continue
+        # ---- the theorem's model (extracted Model/PrimEqFull.v) at this scale vs the code ----
+        vert = c.vertical
+        Mw, L = g.longitude_wavenumbers, g.total_wavenumbers
+        I, Jn = g.nodal_shape; Rr = g.modal_shape[0]
+        basis = g.spherical_harmonics.basis
+        tf, tp, tw = np.asarray(basis.f), np.asarray(basis.p), np.asarray(basis.w)
+        ta, tb = (np.asarray(t) for t in g._derivative_recurrence_weights)
+        sec2 = np.asarray(g.sec2_lat); sin_lat = np.asarray(g.nodal_axes[1])
+        ok_shapes = (g.modal_shape == (2 * Mw - 1, L) and tf.shape == (I, Rr) and tp.shape == (Rr, Jn, L) and tw.shape == (Jn,)
+                     and ta.shape == (Rr, L) and tb.shape == (Rr, L) and sec2.shape == (Jn,) and sin_lat.shape == (Jn,))
+        ctx.exact('whole state under a scale: table shapes of the reference layout', bool(ok_shapes), True)
+        if not ok_shapes: continue
+        Tref = np.asarray(eq.reference_temperature, dtype=np.float64); oro = np.asarray(eq.orography, dtype=np.float64)
+        vo, dv, Tp, lnps = _flat4(st); lnps2 = lnps.reshape(Rr, L)
+        ls = np.log(vert.centers); th = vert.layer_thickness
+        ints = [Mw, L, I, Jn, K, 0]
+        base = [tf.ravel(), tp.ravel(), tw, ta.ravel(), tb.ravel(), sec2, sin_lat,
+                [float(g.radius), float(specs.angular_velocity), float(specs.g), float(specs.R), float(specs.kappa), eta],
+                ls, np.asarray(p['b'], dtype=np.float64), Tref, oro.ravel(), vo.ravel(), dv.ravel(), Tp.ravel(), lnps2.ravel(), []]
+        # magnitudes of the terms (bounds, all in the non-dimensional units of this scale)
+        aux = pe.compute_diagnostic_state(st, c)
+        u, v = (np.asarray(t) for t in aux.cos_lat_u)
+        gx, gy = (np.asarray(t)[0] for t in aux.cos_lat_grad_log_sp)
+        nvo, ndv, nT = np.asarray(aux.vorticity), np.asarray(aux.divergence), np.asarray(aux.temperature_variation)
+        GM = float(np.max(np.einsum('j,ia,ajl->al', np.abs(tw), np.abs(tf), np.abs(tp))))
+        GD = ((L + 2) * (A(ta) + A(tb)) + Mw) / float(g.radius)
+        lam = np.asarray(g.laplacian_eigenvalues)
+        alpha = pe.get_sigma_ratios(vert)
+        cmin = float(np.min(vert.center_to_center)) if K > 1 else 1.0
+        S2 = A(sec2); fc = 2 * abs(float(specs.angular_velocity))
+        U = (A(u) * A(gx) + A(v) * A(gy)) * S2; G = A(ndv) + U; SD = 2 * G
+        VT = lambda w_, x_: w_ * 2 * x_ / cmin
+        GP = 2 * A(alpha) * G / float(np.min(th))
+        TT = A(Tref) + A(nT)
+        S_ad = float(specs.kappa) * TT * (U + GP)
+        S_tot = A(nT) * A(ndv) + VT(SD, A(nT)) + VT(SD, A(Tref)) + S_ad
+        S_c = (A(u) + A(v)) * (A(nvo) + fc) * S2 + (VT(SD, max(A(u), A(v))) + float(specs.R) * A(nT) * max(A(gx), A(gy))) * S2
+        S_ke = (A(u) ** 2 + A(v) ** 2) * S2
+        S_hs = max(A(u), A(v)) * A(nT) * S2
+        sc_e = [GM * S_c * GD, GM * S_c * GD + GM * S_ke * A(lam) + float(specs.g) * A(oro) * A(lam), GM * (S_tot + S_hs * GD), GM * U]
+        sc_e = [s_ + 1e-300 for s_ in sc_e]
+        hs = float(specs.kappa) * A(Tref) * 2 * A(alpha) / float(np.min(th)) + 2 * A(np.diff(Tref)) / (2 * float(np.min(th))) + 1e-300
+        sc_i = [1.0, A(lam) * (float(specs.R) * A(alpha) * 2 * K * A(Tp) * 8 + float(specs.R) * A(Tref) * A(lnps)) + 1e-300,
+                hs * K * A(dv) * 8 + 1e-300, A(dv) + 1e-300]
+        n3 = K * Rr * L; cuts = [n3, n3, n3, Rr * L]
+        def split(ml):
+            out = []; pos = 0
+            for c_ in cuts:
+                out.append(ml[pos:pos + c_]); pos += c_
+            return out
+        tag = 'whole state under scale #%d' % idx
+        me = ctx.model.call(120, ints, base)
+        ctx.exact(tag + ': the model accepts the configuration (explicit_terms)', me is not None and len(me) == sum(cuts), True)
+        if me is not None and len(me) == sum(cuts):
+            for x_, y_, s_, n_ in zip(_flat4(ex), split(me), sc_e, fields):
+                ctx.corr(tag + ': explicit_terms ' + n_, x_, y_, scale=s_)
+        mi = ctx.model.call(121, ints, base)
+        if mi is not None and len(mi) == sum(cuts):
+            for x_, y_, s_, n_ in zip(_flat4(im), split(mi), sc_i, fields):
+                ctx.corr(tag + ': implicit_terms ' + n_, x_, y_, scale=s_)
+        mat = np.asarray(pe._get_implicit_term_matrix(eta, c, Tref, specs.kappa, specs.R), dtype=np.float64)
+        inv = np.linalg.inv(mat)
+        res = max(A(np.einsum('lij,ljk->lik', inv, mat) - np.eye(2 * K + 1)), A(np.einsum('lij,ljk->lik', mat, inv) - np.eye(2 * K + 1)))
+        ctx.table_obligation('np.linalg.inv(implicit_matrix) is a two-sided inverse under the scale (step 0.5 dt)',
+                             res <= 2.0 ** -30 * max(1.0, A(inv) * A(mat)), {'residual': res, 'scale': sv})
+        mo = ctx.model.call(122, ints, base + [inv.ravel()])
+        if mo is not None and len(mo) == sum(cuts):
+            svv = A(inv) * (2 * K + 1) * max(A(dv), A(Tp), A(lnps))
+            sc_v = [A(vo) + 1e-300, svv, svv, svv]
+            for x_, y_, s_, n_ in zip(_flat4(inv_st), split(mo), sc_v, fields):
+                ctx.corr(tag + ': implicit_inverse ' + n_, x_, y_, scale=s_)
+        ctx.count('whole_state_scales:K=%d' % K)
+    _cmp(ctx, 'whole state (tiny real grid): explicit_terms equal in SI under both scales', R['explicit'], labels)
+    _cmp(ctx, 'whole state (tiny real grid): implicit_terms equal in SI under both scales', R['implicit'], labels)
+    _cmp(ctx, 'whole state (tiny real grid): implicit_inverse (0.5 dt) equal in SI under both scales', R['inverse'], labels)
+
+
 RUNNERS = {'grid_routes': r_grid_routes, 'pe_extreme': r_pe_extreme, 'sw_extreme': r_sw_extreme, 'dfi': r_dfi, 'winds': r_winds, 'threshold_scan': r_threshold_scan,
            'ast_scan': r_ast_scan, 'units': r_units, 'sigma_homog': r_sigma_homog, 'nodal_homog': r_nodal_homog, 'moist_homog': r_moist_homog, 'column_homog': r_column_homog,
            'column_matrix': r_column_matrix, 'expr': r_expr, 'pe': r_pe,
            'held_suarez': r_held_suarez, 'shallow_water': r_shallow_water, 'filters': r_filters, 'helpers': r_helpers,
-           'init_states': r_init_states, 'radiation': r_radiation}
+           'init_states': r_init_states, 'radiation': r_radiation, 'whole_state_scales': r_whole_state_scales}
